@@ -197,9 +197,9 @@ Proof. intros H. unfold at_notary. destruct (N.eqb_spec a (a_notary cfg)); [cont
 Lemma at_notary_self d : at_notary cfg (a_notary cfg) d = d.
 Proof. unfold at_notary. rewrite N.eqb_refl. reflexivity. Qed.
 
-Lemma gas_transfer_core_bal st sender from to amount d st' r :
+Lemma gas_transfer_core_bal st sender wit from to amount d st' r :
   WF (L st) -> 0 <= amount -> from <> a_notary cfg ->
-  gas_transfer_core cfg st sender from to amount d = Some (st', r) -> Bal st st'.
+  gas_transfer_core cfg st sender wit from to amount d = Some (st', r) -> Bal st st'.
 Proof.
   intros Hwf Ha Hfrom. unfold gas_transfer_core, ok.
   set (empty := N.eqb from to || (amount =? 0)).
@@ -231,7 +231,7 @@ Proof.
     assert (Hto : to <> a_notary cfg) by (intros ->; rewrite (proj2 (cw_notary_kind CW _) eq_refl) in Ek; discriminate).
     destruct d as [| |k]; try discriminate.
     destruct (negb (amount =? c_regprice (A st3))); [discriminate|].
-    destruct (negb (N.eqb (key_acct cfg k) sender)); [discriminate|].
+    destruct (negb (N.eqb (key_acct cfg k) wit)); [discriminate|].
     destruct (gas_burn (register_internal st3 k) (a_neo cfg) amount) as [st4|] eqn:E4; [|discriminate].
     intros H. inv H.
     pose proof (register_internal_bal cfg st3 k Hwf3) as B4.
@@ -242,9 +242,9 @@ Proof.
 Qed.
 
 (* the transfer out of the Notary contract made by withdraw *)
-Lemma gas_transfer_core_from_notary st sender to amount st' :
+Lemma gas_transfer_core_from_notary st sender wit to amount st' :
   WF (L st) -> 0 <= amount ->
-  gas_transfer_core cfg st sender (a_notary cfg) to amount DNone = Some (st', Some true) ->
+  gas_transfer_core cfg st sender wit (a_notary cfg) to amount DNone = Some (st', Some true) ->
   Eff st st' 0 0 (- amount) zero_ev.
 Proof.
   intros Hwf Ha. unfold gas_transfer_core, ok.
@@ -267,9 +267,9 @@ Proof.
     destruct (N.eqb_spec (a_notary cfg) to); [congruence|]. simpl. destruct (amount =? 0) eqn:E0; lia.
 Qed.
 
-Lemma gas_transfer_bal st w sender from to amount d st' r :
+Lemma gas_transfer_bal st w sender wit from to amount d st' r :
   WF (L st) -> (w = true -> from <> a_notary cfg) ->
-  gas_transfer cfg st w sender from to amount d = Some (st', r) -> Bal st st'.
+  gas_transfer cfg st w sender wit from to amount d = Some (st', r) -> Bal st st'.
 Proof.
   intros Hwf Hf. unfold gas_transfer, ok.
   destruct (amount <? 0) eqn:E; [discriminate|].
@@ -278,8 +278,8 @@ Proof.
 Qed.
 
 (* ---------- Notary.withdraw / lockDepositUntil ---------- *)
-Lemma notary_withdraw_bal st w sender from to0 st' r :
-  WF (L st) -> notary_withdraw cfg st w sender from to0 = Some (st', r) -> Bal st st'.
+Lemma notary_withdraw_bal st w sender wit from to0 st' r :
+  WF (L st) -> notary_withdraw cfg st w sender wit from to0 = Some (st', r) -> Bal st st'.
 Proof.
   intros Hwf. unfold notary_withdraw, ok.
   destruct (negb w); [intros H; inv H; apply Eff_refl|].
@@ -288,11 +288,11 @@ Proof.
   pose proof (dep_nonneg st from Hwf) as Hd.
   assert (F1 := Eff_dep_put st from dep0 (Z.le_refl 0)).
   pose proof (e_wf _ _ _ _ _ _ _ F1 Hwf) as Hwf1.
-  destruct (gas_transfer_core cfg (dep_put st from dep0) sender (a_notary cfg)
+  destruct (gas_transfer_core cfg (dep_put st from dep0) sender wit (a_notary cfg)
               match to0 with Some t => t | None => from end (damt (dep_of st from)) DNone)
     as [[st2 [[|]|]]|] eqn:E2; try discriminate.
   intros H. inv H.
-  pose proof (gas_transfer_core_from_notary _ _ _ _ _ Hwf1 Hd E2) as F2.
+  pose proof (gas_transfer_core_from_notary _ _ _ _ _ _ Hwf1 Hd E2) as F2.
   eapply Eff_ext; [exact (Eff_trans _ _ _ _ _ _ _ _ _ _ _ _ F1 F2)|..]; auto; simpl; try lia.
   all: try (intros tk x; unfold zero_ev; lia).
 Qed.
@@ -364,10 +364,38 @@ Proof.
 Qed.
 
 Lemma whitelist_set_bal st a fee st' r : whitelist_set cfg st a fee = Some (st', r) -> Bal st st'.
-Proof. unfold whitelist_set. destruct (fee <? 0); intros H; inv H. apply Eff_withA. Qed.
+Proof.
+  unfold whitelist_set. destruct (fee <? 0); [discriminate|].
+  destruct (negb (mc_present (contract_of st a))); intros H; inv H. apply Eff_withA.
+Qed.
 
 Lemma whitelist_remove_bal st a st' r : whitelist_remove st a = Some (st', r) -> Bal st st'.
-Proof. unfold whitelist_remove. destruct (_ =? 0); intros H; inv H. apply Eff_withA. Qed.
+Proof.
+  unfold whitelist_remove. destruct (negb (mc_present (contract_of st a))); [discriminate|].
+  destruct (_ =? 0); intros H; inv H. apply Eff_withA.
+Qed.
+
+(* Designate and Management touch neither the ledger nor (except through Policy) the aux part *)
+Lemma designate_as_role_bal st role ks st' r : designate_as_role st role ks = Some (st', r) -> Bal st st'.
+Proof.
+  unfold designate_as_role.
+  repeat match goal with |- context [if ?c then None else _] => destruct c; [discriminate|] end.
+  intros H; inv H. apply Eff_sameL. reflexivity.
+Qed.
+
+Lemma mg_deploy_bal st a st' r : mg_deploy st a = Some (st', r) -> Bal st st'.
+Proof.
+  unfold mg_deploy.
+  repeat match goal with |- context [if ?c then None else _] => destruct c; [discriminate|] end.
+  intros H; inv H. apply Eff_sameL. reflexivity.
+Qed.
+
+Lemma mg_update_bal st a st' r : mg_update st a = Some (st', r) -> Bal st st'.
+Proof.
+  unfold mg_update.
+  repeat match goal with |- context [if ?c then None else _] => destruct c; [discriminate|] end.
+  intros H; inv H. apply Eff_sameL. reflexivity.
+Qed.
 
 Lemma set_gas_per_block_bal st v st' r : set_gas_per_block st v = Some (st', r) -> Bal st st'.
 Proof.
@@ -379,15 +407,26 @@ Proof.
   unfold set_register_price. destruct (v <=? 0); intros H; inv H. apply Eff_withA.
 Qed.
 
+Lemma mg_destroy_bal st a st' r : WF (L st) -> mg_destroy cfg st a = Some (st', r) -> Bal st st'.
+Proof.
+  intros Hwf. unfold mg_destroy.
+  destruct (negb (mc_present (contract_of st a))); [discriminate|].
+  destruct (block_account cfg st (caddr a)) as [[st1 r1]|] eqn:E; [|discriminate].
+  intros H; inv H. eapply Bal_trans; [apply (block_account_bal _ _ _ _ Hwf E)|].
+  apply Eff_sameL. reflexivity.
+Qed.
+
 (* ---------- transactions ---------- *)
-(* the Notary contract never signs an operation of the model (its transactions carry scope None and NotaryAssisted
-   fee payment is not modelled): stated as a hypothesis on the transaction *)
-Definition tx_ok (t : tx) : Prop := t_signer t <> a_notary cfg.
+(* the witness a script sees is never the Notary contract's: a transaction sent by Notary has the NotaryAssisted
+   attribute (Notary.verify refuses it otherwise), the contract signs with scope None, and the payer is another
+   account (signers are distinct): stated as a hypothesis on the transaction *)
+Definition tx_ok (t : tx) : Prop := t_wit cfg t <> a_notary cfg.
 
 Lemma run_op_bal st t st' r :
   WF (L st) -> tx_ok t -> run_op cfg st t = Some (st', r) -> Bal st st'.
 Proof.
   intros Hwf Ht. unfold run_op, tx_ok in *.
+  set (wt := t_wit cfg t) in *.
   destruct (t_op t).
   - apply neo_transfer_bal; auto. intros E. apply N.eqb_eq in E. congruence.
   - apply gas_transfer_bal; auto. intros E. apply N.eqb_eq in E. congruence.
@@ -401,8 +440,13 @@ Proof.
   - destruct (committee_witness st t); [apply block_account_bal; auto|discriminate].
   - destruct (committee_witness st t); [apply unblock_account_bal|discriminate].
   - destruct (committee_witness st t); [apply policy_set_bal|discriminate].
-  - destruct (committee_witness st t && i_halt t); [|discriminate].
+  - destruct (committee_witness st t && hf_faun cfg); [|discriminate].
     destruct fee; [apply whitelist_set_bal|apply whitelist_remove_bal].
+  - destruct (committee_witness st t); [apply designate_as_role_bal|discriminate].
+  - apply mg_deploy_bal.
+  - apply mg_update_bal.
+  - apply mg_destroy_bal; auto.
+  - destruct (i_halt t); intros H; inv H. apply Eff_sameL. reflexivity.
   - discriminate.
   - destruct (i_halt t); intros H; inv H. apply Eff_refl.
 Qed.
@@ -421,22 +465,106 @@ Proof.
 Qed.
 
 (* ---------- block level ---------- *)
-Lemma burn_fees_bal txs : forall st st', WF (L st) -> Forall tx_ok txs -> burn_fees st txs = Some st' -> Bal st st'.
+(* the fees of the transactions the Notary contract sends: burnt from its GAS, then charged to deposits *)
+Definition notary_sent (txs : list tx) : Z :=
+  fold_right (fun t s => (if N.eqb (t_signer t) (a_notary cfg) then t_sysfee t + t_netfee t else 0) + s) 0 txs.
+
+Lemma gas_burn_eff_gen st a amt st' :
+  gas_burn st a amt = Some st' -> WF (L st) -> Eff st st' 0 0 (at_notary cfg a (- amt)) zero_ev.
 Proof.
-  induction txs as [|t r IH]; intros st st' Hwf Hok; simpl; [intros H; inv H; apply Eff_refl|].
-  inv Hok. destruct (gas_burn st (t_signer t) (t_sysfee t + t_netfee t)) as [st1|] eqn:E; [|discriminate].
-  destruct (gas_burn_eff cfg _ _ _ _ E Hwf H1) as [B _].
-  intros H. eapply Bal_trans; [exact B|]. apply (IH st1); auto. apply (e_wf _ _ _ _ _ _ _ B Hwf).
+  unfold gas_burn. intros H Hwf.
+  destruct (amt =? 0) eqn:E0.
+  { inv H. eapply Eff_ext; [apply Eff_refl|..]; auto. apply Z.eqb_eq in E0. subst amt.
+    unfold at_notary. destruct (N.eqb a (a_notary cfg)); reflexivity. }
+  destruct (gas_add_tokens st a (- amt)) as [st1|] eqn:E1; [|discriminate].
+  destruct (gas_add_tokens_eff cfg _ _ _ _ E1 Hwf) as [He HA]. inv H.
+  eapply Eff_ext; [exact (Eff_trans _ _ _ _ _ _ _ _ _ _ _ _ He (Eff_emit cfg st1 _))|..]; try lia.
+  intros tk x. cbv beta. rewrite d_event_burn. reflexivity.
 Qed.
 
-Lemma gas_on_persist_bal st txs st' :
-  WF (L st) -> Forall tx_ok txs -> gas_on_persist cfg st txs = Some st' -> Bal st st'.
+Lemma burn_fees_eff txs : forall st st', WF (L st) -> burn_fees st txs = Some st' ->
+  Eff st st' 0 0 (- notary_sent txs) zero_ev.
 Proof.
-  intros Hwf Hok. unfold gas_on_persist. destruct txs as [|t r]; [intros H; inv H; apply Eff_refl|].
+  induction txs as [|t r IH]; intros st st' Hwf; simpl; [intros H; inv H; apply Eff_refl|].
+  destruct (gas_burn st (t_signer t) (t_sysfee t + t_netfee t)) as [st1|] eqn:E; [|discriminate].
+  pose proof (gas_burn_eff_gen _ _ _ _ E Hwf) as B.
+  intros H. pose proof (IH st1 st' (e_wf _ _ _ _ _ _ _ B Hwf) H) as B'.
+  eapply Eff_ext; [exact (Eff_trans _ _ _ _ _ _ _ _ _ _ _ _ B B')|..]; try lia.
+  - unfold at_notary. destruct (N.eqb (t_signer t) (a_notary cfg)); lia.
+  - intros tk x. unfold zero_ev. lia.
+Qed.
+
+Lemma gas_on_persist_eff st txs st' :
+  WF (L st) -> gas_on_persist cfg st txs = Some st' -> Eff st st' 0 0 (- notary_sent txs) zero_ev.
+Proof.
+  intros Hwf. unfold gas_on_persist. destruct txs as [|t r]; [intros H; inv H; apply Eff_refl|].
   destruct (burn_fees st (t :: r)) as [st1|] eqn:E; [|discriminate].
-  pose proof (burn_fees_bal _ _ _ Hwf Hok E) as B1.
+  pose proof (burn_fees_eff _ _ _ Hwf E) as B1.
   intros H. destruct (gas_mint_eff cfg _ _ _ _ _ H (e_wf _ _ _ _ _ _ _ B1 Hwf) (cw_keys CW _)) as [B2 _].
-  eapply Bal_trans; eassumption.
+  eapply Eff_ext; [exact (Eff_trans _ _ _ _ _ _ _ _ _ _ _ _ B1 B2)|..]; try lia.
+  intros tk x. unfold zero_ev. lia.
+Qed.
+
+Lemma tx_ok_notary_sent t : tx_ok t -> N.eqb (t_signer t) (a_notary cfg) = true -> exists nk p, t_na t = Some (nk, p).
+Proof.
+  unfold tx_ok, t_wit. intros H E. rewrite E in H. destruct (t_na t) as [[nk p]|]; [eauto|].
+  apply N.eqb_eq in E. contradiction.
+Qed.
+
+Lemma charge_deposits_eff txs : forall st st', WF (L st) -> Forall tx_ok txs -> charge_deposits cfg st txs = Some st' ->
+  Eff st st' 0 0 (notary_sent txs) zero_ev.
+Proof.
+  induction txs as [|t r IH]; intros st st' Hwf Hok; simpl; [intros H; inv H; apply Eff_refl|].
+  inv Hok. destruct (N.eqb (t_signer t) (a_notary cfg)) eqn:En.
+  - destruct (tx_ok_notary_sent t H1 En) as (nk & p & Ena). rewrite Ena.
+    destruct (negb (dpresent (dep_of st p))); [discriminate|].
+    set (amt := damt (dep_of st p) - (t_sysfee t + t_netfee t)).
+    destruct (amt <? 0) eqn:Elt; [discriminate|].
+    set (d' := if amt =? 0 then dep0 else mkDep true amt (dtill (dep_of st p))).
+    assert (Hd : damt d' = amt).
+    { unfold d'. destruct (amt =? 0) eqn:E0; simpl; [apply Z.eqb_eq in E0; lia|reflexivity]. }
+    assert (B : Eff st (dep_put st p d') 0 0 (t_sysfee t + t_netfee t) zero_ev).
+    { eapply Eff_ext; [apply (Eff_dep_put st p d'); lia|..]; auto. unfold amt in Hd. lia. }
+    intros H. pose proof (IH _ _ (e_wf _ _ _ _ _ _ _ B Hwf) H2 H) as B'.
+    eapply Eff_ext; [exact (Eff_trans _ _ _ _ _ _ _ _ _ _ _ _ B B')|..]; try lia.
+    intros tk x. unfold zero_ev. lia.
+  - intros H. assert (H' : charge_deposits cfg st r = Some st') by (destruct (t_na t) as [[nk p]|]; exact H).
+    pose proof (IH _ _ Hwf H2 H') as B'. eapply Eff_ext; [exact B'|..]; auto; try lia.
+Qed.
+
+Lemma mint_each_bal accts : forall st st' amount, WF (L st) -> Forall (fun a => a <> a_notary cfg) accts ->
+  mint_each cfg st accts amount = Some st' -> Bal st st'.
+Proof.
+  induction accts as [|a r IH]; intros st st' amount Hwf Hn; simpl; [intros H; inv H; apply Eff_refl|].
+  inv Hn. destruct (gas_mint cfg st a amount false) as [st1|] eqn:E; [|discriminate].
+  destruct (gas_mint_eff cfg _ _ _ _ _ E Hwf H1) as [B _].
+  intros H. eapply Bal_trans; [exact B|]. apply (IH st1 st' amount); auto. apply (e_wf _ _ _ _ _ _ _ B Hwf).
+Qed.
+
+Lemma notary_on_persist_eff st txs st' :
+  WF (L st) -> Forall tx_ok txs -> notary_on_persist cfg st txs = Some st' -> Eff st st' 0 0 (notary_sent txs) zero_ev.
+Proof.
+  intros Hwf Hok. unfold notary_on_persist.
+  destruct (charge_deposits cfg st txs) as [st1|] eqn:E1; [|discriminate].
+  pose proof (charge_deposits_eff _ _ _ Hwf Hok E1) as B1.
+  destruct (na_fees txs =? 0); [intros H; inv H; exact B1|].
+  destruct (notary_nodes st1) as [|n ns] eqn:En; [intros H; inv H; exact B1|].
+  intros H.
+  assert (B2 : Bal st1 st').
+  { eapply mint_each_bal; [apply (e_wf _ _ _ _ _ _ _ B1 Hwf)| |exact H].
+    apply Forall_forall. intros a Ha. apply in_map_iff in Ha. destruct Ha as (k & <- & _). apply (cw_keys CW). }
+  eapply Eff_ext; [exact (Eff_trans _ _ _ _ _ _ _ _ _ _ _ _ B1 B2)|..]; try lia.
+  intros tk x. unfold zero_ev. lia.
+Qed.
+
+Lemma natives_on_persist_bal st txs st' :
+  WF (L st) -> Forall tx_ok txs -> natives_on_persist cfg st txs = Some st' -> Bal st st'.
+Proof.
+  intros Hwf Hok. unfold natives_on_persist.
+  destruct (gas_on_persist cfg st txs) as [st1|] eqn:E1; [|discriminate].
+  pose proof (gas_on_persist_eff _ _ _ Hwf E1) as B1.
+  intros E2. pose proof (notary_on_persist_eff _ _ _ (e_wf _ _ _ _ _ _ _ B1 Hwf) Hok E2) as B2.
+  eapply Eff_ext; [exact (Eff_trans _ _ _ _ _ _ _ _ _ _ _ _ B1 B2)|..]; try lia. intros tk x. unfold zero_ev. lia.
 Qed.
 
 Lemma neo_on_persist_L st : L (neo_on_persist cfg st) = L st.
@@ -465,8 +593,8 @@ Proof.
   set (st0 := withA st (set_height (A st) (height (A st) + 1))).
   assert (B0 : Bal st (neo_on_persist cfg st0)) by (apply Eff_sameL; rewrite neo_on_persist_L; reflexivity).
   pose proof (e_wf _ _ _ _ _ _ _ B0 Hwf) as Hwf0.
-  destruct (gas_on_persist cfg (neo_on_persist cfg st0) txs) as [st1|] eqn:E1; [|discriminate].
-  pose proof (gas_on_persist_bal _ _ _ Hwf0 Hok E1) as B1.
+  destruct (natives_on_persist cfg (neo_on_persist cfg st0) txs) as [st1|] eqn:E1; [|discriminate].
+  pose proof (natives_on_persist_bal _ _ _ Hwf0 Hok E1) as B1.
   pose proof (e_wf _ _ _ _ _ _ _ B1 Hwf0) as Hwf1.
   pose proof (fold_exec_bal txs st1 Hwf1 Hok) as B2.
   pose proof (e_wf _ _ _ _ _ _ _ B2 Hwf1) as Hwf2.
